@@ -9,8 +9,10 @@ Objects of the statement:
 `re` — the regular-expression oracle — is universally quantified: the theorems hold for every
 interpretation of patterns, as long as BOTH sides use the same one (pydantic-v1 `regex=` uses
 `re.match`, JSON Schema says search: that difference is outside the theorem and is a known finding).
-`allOf` composition and discriminators are not constructors of `Dcg.Sem.Schema`: for them the
-property rests on the end-to-end oracle of vlib/props/c03.py only.
+`allOf` composition (`Schema.allOf`: `$ref` parts + one inline object + an allOf-level `required`) and
+OpenAPI discriminators (`Schema.disc`, with or without `mapping`) are constructors of
+`Dcg.Sem.Schema` and are covered by `valid_accepted_partial`; `discriminated_valid_accepted` spells the
+discriminator case out.
 -/
 namespace Dcg.Props.C03
 open Dcg.Sem Dcg.Sem.Pyd Dcg.Model.Constraints Dcg.Model.Translate Dcg.Proofs.Sem
@@ -42,6 +44,126 @@ theorem valid_accepted_partial (st : Style) (o : Opts) (re : Regex) (defs : Defs
     acceptsTy st re g (trDefs st o defs) (tr st o ctx s) v ≠ .reject :=
   valid_accepted_all st o re defs (tableOK st) hd g g (Nat.le_refl _) f ctx s v hs hv
 
+/-- DISCRIMINATORS, spelled out (a corollary of the theorem above for `Schema.disc`, any place `ctx`):
+take ANY key `tag` of the mapping in effect (the written `mapping`, or — without one — every
+alternative under its own name) that points at an alternative `r` of the union, and any object that
+carries `tag` under the discriminator property and is valid under definition `r` (for `oneOf`: under no
+other alternative). The generated `Union[…] = Field(discriminator=…)` does not reject it — in
+particular when several keys (`dog`, `puppy`) select the same definition. -/
+theorem discriminated_valid_accepted (st : Style) (o : Opts) (re : Regex) (defs : Defs)
+    (hd : defsInSubset defs = true) (f g : Nat) (ctx : Ctx) (one : Bool) (prop : List Char)
+    (refs : List (List Char)) (mapping : List (List Char × List Char))
+    (hs : (Schema.disc one prop refs mapping).inSubset = true)
+    (kvs : List (List Char × Json)) (tag r : List Char) (t : Schema)
+    (hk : (tag, r) ∈ effMapping refs mapping) (hr : r ∈ refs)
+    (htag : kvs.lookup prop = some (.str tag)) (hdef : defs.lookup r = some t)
+    (hv : validJ re f defs t (.obj kvs) = true)
+    (hone : one = true → countTrue (refs.map (fun r' => match defs.lookup r' with
+      | some t' => validJ re f defs t' (.obj kvs)
+      | none => false)) = 1) :
+    acceptsTy st re g (trDefs st o defs) (tr st o ctx (.disc one prop refs mapping)) (.obj kvs) ≠ .reject := by
+  refine valid_accepted_partial st o re defs hd (f + 1) g ctx _ _ hs ?_
+  have hn : namesNodup (mapping.map (·.1)) = true := by
+    simp only [Schema.inSubset, Bool.and_eq_true] at hs
+    exact hs.1
+  -- the key is found by the lookup, and the lookup gives `r`
+  have hlk : (effMapping refs mapping).lookup tag = some r := by
+    cases hl : (effMapping refs mapping).lookup tag with
+    | none =>
+      have := lookup_isSome_of_mem _ _ _ hk  -- a key that occurs is found
+      simp [hl] at this
+    | some r' => rw [effMapping_functional refs mapping hn hk hl]
+  simp only [validJ, htag, hlk, hdef, hv, Bool.and_true]
+  have hrc : refs.contains r = true := by simpa using hr
+  simp only [hrc, Bool.and_true]
+  cases one with
+  | true =>
+    simp only [if_true, beq_iff_eq]
+    refine Eq.trans (congrArg (fun F => countTrue (List.map F refs)) (funext fun r' => ?_)) (hone rfl)
+    cases List.lookup r' defs <;> simp
+  | false =>
+    simp only [Bool.false_eq_true, if_false, List.any_eq_true]
+    exact ⟨r, hr, by simp [hdef, hv]⟩
+
+/-- the demo of the discriminator theorem: `dog` and `puppy` both select Dog -/
+def petDefs : Defs :=
+  [("Cat".toList, .object [("pet-type".toList, .scalar .string false {}), ("lives".toList, .scalar .integer false {})]
+      ["pet-type".toList, "lives".toList] .forbid),
+   ("Dog".toList, .object [("pet-type".toList, .scalar .string false {}), ("bark".toList, .scalar .boolean false {})]
+      ["pet-type".toList, "bark".toList] .forbid)]
+def petUnion : Schema :=
+  .disc true "pet-type".toList ["Cat".toList, "Dog".toList]
+    [("cat".toList, "Cat".toList), ("dog".toList, "Dog".toList), ("puppy".toList, "Dog".toList)]
+def puppy : Json := .obj [("pet-type".toList, .str "puppy".toList), ("bark".toList, .bool true)]
+
+/-- non-vacuity: the hypotheses hold for the `puppy` object; the class of Dog carries BOTH tags; the
+tagged union accepts the puppy (strong conclusion) and rejects an unknown tag -/
+example : petUnion.inSubset = true ∧ defsInSubset petDefs = true ∧
+    validJ (fun _ _ => true) 6 petDefs petUnion puppy = true ∧
+    tagAtoms ["Cat".toList, "Dog".toList]
+      [("cat".toList, "Cat".toList), ("dog".toList, "Dog".toList), ("puppy".toList, "Dog".toList)] "Dog".toList
+      = [.str "dog".toList, .str "puppy".toList] ∧
+    acceptsTy .v2 (fun _ _ => true) 8 (trDefs .v2 {} petDefs) (tr .v2 {} .plain petUnion) puppy = .accept ∧
+    acceptsTy .v1 (fun _ _ => true) 8 (trDefs .v1 {} petDefs) (tr .v1 {} .top petUnion) puppy = .accept ∧
+    acceptsTy .v2 (fun _ _ => true) 8 (trDefs .v2 {} petDefs) (tr .v2 {} .plain petUnion)
+      (.obj [("pet-type".toList, .str "wolf".toList), ("bark".toList, .bool true)]) = .reject := by
+  decide +kernel
+
+/-- WITNESS that "every key" is needed: were only the FIRST key pointing at a definition written into
+its class (`dog` for Dog), the valid `puppy` object would be rejected -/
+theorem first_key_only_rejects_valid :
+    validJ (fun _ _ => true) 6 petDefs petUnion puppy = true ∧
+    acceptsTy .v2 (fun _ _ => true) 8 (trDefs .v2 {} petDefs)
+      (.tagged "pet-type".toList [([.str "cat".toList], "Cat".toList), ([.str "dog".toList], "Dog".toList)])
+      puppy = .reject := by decide +kernel
+
+/-! ### second half of the property: serialising the accepted object by wire name gives the value back -/
+
+/-- FULL STRENGTH: a valid value is dumped back unchanged. Kept visible; FALSE on the pinned tree
+(known finding D19, refuted below): an open object schema (`additionalProperties` absent) admits members
+it does not declare, the generated class has pydantic's default `extra` (ignore) and drops them. -/
+def DumpRoundtrip : Prop :=
+  ∀ (st : Style) (o : Opts) (re : Regex) (defs : Defs) (f g : Nat) (ctx : Ctx) (s : Schema) (v : Json),
+    validJ re f defs s v = true →
+      dump st re g (trDefs st o defs) (tr st o ctx s) v = v
+
+/-- PARTIAL (unbounded in schema depth, value size, `$ref` recursion, both fuels; both styles, all
+routings, every regex oracle; nested models, lists, dicts, unions, tagged unions, allOf classes):
+a valid value WITHOUT UNDECLARED MEMBERS — the decidable hypothesis `declared`: wherever the dump meets a
+class with the default `extra`, every member of the object is declared by the class or a base — is
+not rejected, and dumping it by wire name (unset members excluded) returns the same JSON value:
+aliases are the original names, absent optional members stay absent, nulls stay nulls. -/
+theorem dump_roundtrip_partial (st : Style) (o : Opts) (re : Regex) (defs : Defs)
+    (hd : defsInSubset defs = true) (f g : Nat) (ctx : Ctx) (s : Schema) (v : Json)
+    (hs : s.inSubset = true) (hv : validJ re f defs s v = true)
+    (hdecl : declared st re g (trDefs st o defs) (tr st o ctx s) v = true) :
+    acceptsTy st re g (trDefs st o defs) (tr st o ctx s) v ≠ .reject ∧
+    dump st re g (trDefs st o defs) (tr st o ctx s) v = v :=
+  ⟨valid_accepted_partial st o re defs hd f g ctx s v hs hv, dump_id st re g _ _ v hdecl⟩
+
+/-- …for EVERY type and value (no schema needed): the only thing `dump` ever does to a value is to drop
+members that a class with the default `extra` does not declare. -/
+theorem dump_identity_on_declared (st : Style) (re : Regex) (g : Nat) (D : IRDefs) (t : Ty) (v : Json)
+    (h : declared st re g D t v = true) : dump st re g D t v = v :=
+  dump_id st re g D t v h
+
+/-- REFUTATION of `DumpRoundtrip` (known finding D19): `{"type":"object","properties":{"a":{"type":"integer"}}}`
+admits `{"a":1,"zz":2}`; the class accepts it and dumps `{"a":1}`. -/
+theorem dump_roundtrip_false_D19 : ¬ DumpRoundtrip := by
+  intro h
+  have := h .v2 {} (fun _ _ => true) [] 3 4 .top
+    (.object [("a".toList, .scalar .integer false {})] [] .absent)
+    (.obj [("a".toList, .num ⟨1, 0⟩), ("zz".toList, .num ⟨2, 0⟩)]) (by decide +kernel)
+  have hw := congrArg Json.width this
+  revert hw
+  decide +kernel
+
+/-- the witness is accepted, and it is outside `declared`, as it must be -/
+example : acceptsTy .v2 (fun _ _ => true) 4 [] (tr .v2 {} .top (.object [("a".toList, .scalar .integer false {})] [] .absent))
+      (.obj [("a".toList, .num ⟨1, 0⟩), ("zz".toList, .num ⟨2, 0⟩)]) = .accept ∧
+    declared .v2 (fun _ _ => true) 4 [] (tr .v2 {} .top (.object [("a".toList, .scalar .integer false {})] [] .absent))
+      (.obj [("a".toList, .num ⟨1, 0⟩), ("zz".toList, .num ⟨2, 0⟩)]) = false := by decide +kernel
+
 /-- the document a test would write: closed object, required bounded integer, optional nullable
 string with length bounds, array of a recursive definition -/
 def demoDefs : Defs :=
@@ -64,6 +186,13 @@ example : demoSchema.inSubset = true ∧ defsInSubset demoDefs = true ∧
       = .accept ∧
     acceptsTy .v1 (fun _ _ => true) 12 (trDefs .v1 { fieldConstraints := true } demoDefs)
       (tr .v1 { fieldConstraints := true } .top demoSchema) demoValue = .accept := by
+  decide +kernel
+
+/-- non-vacuity of `dump_roundtrip_partial`: the demo value (absent optional member, a null, a list of
+recursive models) and the `puppy` of the discriminator demo satisfy `declared` -/
+example : declared .v2 (fun _ _ => true) 12 (trDefs .v2 {} demoDefs) (tr .v2 {} .top demoSchema) demoValue = true ∧
+    (dump .v2 (fun _ _ => true) 12 (trDefs .v2 {} demoDefs) (tr .v2 {} .top demoSchema) demoValue).beq demoValue = true ∧
+    declared .v1 (fun _ _ => true) 8 (trDefs .v1 {} petDefs) (tr .v1 {} .plain petUnion) puppy = true := by
   decide +kernel
 
 /-- …and the models do reject: one step outside the exclusive bound -/
